@@ -16,8 +16,14 @@ Fixpoint py_digits (s : str) (acc : Z) (prev_digit : bool) : option Z :=
     else None
   end.
 
+(* int() skips only the ASCII whitespace characters \t \n \v \f \r and space — NOT \x1c..\x1f, which str.strip() removes *)
+Definition is_int_space (c : Z) : bool := ((9 <=? c) && (c <=? 13)) || (c =? 32).
+Fixpoint lstrip_int (s : str) : str :=
+  match s with c :: r => if is_int_space c then lstrip_int r else s | [] => [] end.
+Definition strip_int (s : str) : str := rev (lstrip_int (rev (lstrip_int s))).
+
 Definition py_int (s : str) : option Z :=
-  match strip s with
+  match strip_int s with
   | [] => None
   | 45 :: r => option_map Z.opp (py_digits r 0 false)
   | 43 :: r => py_digits r 0 false
